@@ -112,7 +112,7 @@ def main():
                 results[idx] = (status, t, model)
         # second chance for obligations the solver did not decide in time (machine load): alone-ish, five times the budget
         again = [i for i in sel if results[i][0] == "undecided"]
-        if again:
+        if again and not os.environ.get("ASMVC_NO_RETRY"):
             with ProcessPoolExecutor(max_workers=max(2, a.j // 3)) as ex:
                 for idx, status, t, model in ex.map(work, [(i, recs[i]["smt2"], a.timeout * 5000) for i in again]):
                     results[idx] = (status, results[idx][1] + t, model)
